@@ -96,4 +96,19 @@ def tableEgo (ests gts : List Obj) : List (List ScoreRow) := ests.map (fun a => 
 def tableMap (e : Pose) (ests gts : List Obj) : List (List ScoreRow) :=
   ests.map (fun a => gts.map (scoreRowMap e a))
 
+/-! ## object identity (`DynamicObject.__eq__`)
+
+`__eq__` compares the time stamp, the label, the position tuple and the orientation quaternion, all
+*exactly*. Time stamp and label are frame-free attributes; the frame-dependent part is `samePose`.
+`x in list` (`get_negative_objects`: `ground_truth_object in non_candidates`) is `containsPose`. -/
+
+/-- the frame-dependent part of `DynamicObject.__eq__`: equal position and equal orientation -/
+def Obj.samePose (a b : Obj) : Bool := a.box.center == b.box.center && a.box.rot == b.box.rot
+
+/-- `o in os` as far as it depends on the frame -/
+def containsPose (os : List Obj) (o : Obj) : Bool := os.any (fun x => o.samePose x)
+
+/-- who is equal to whom in a list of objects (row `i`, column `j`: `os[i] == os[j]`) -/
+def sameTable (os : List Obj) : List (List Bool) := os.map (fun a => os.map (fun b => a.samePose b))
+
 end PEval.FrameChange
